@@ -43,6 +43,10 @@ func main() {
 		var inp c17Input
 		mustLoad(*in, &inp)
 		mustStore(*out, runC17(env, &inp, *seed))
+	case "c16":
+		var inp c16Input
+		mustLoad(*in, &inp)
+		mustStore(*out, runC16(env, &inp, *seed))
 	case "c18":
 		var inp c18Input
 		mustLoad(*in, &inp)
